@@ -94,7 +94,7 @@ func TestVerifC08Glob(t *testing.T) {
 	rep.Count("pair_pattern_sets", len(pairPats)*(len(pairPats)-1))
 	rng := verifkit.Stream("c08glob")
 	// sampled pairs/triples over the length-4 space
-	nTrip := verifkit.Scale(20000, 400000)
+	nTrip := verifkit.Scale(20000, 2000000)
 	for i := 0; i < nTrip; i++ {
 		k := 2 + rng.Intn(2)
 		set := make([]string, k)
@@ -106,7 +106,7 @@ func TestVerifC08Glob(t *testing.T) {
 	// random longer patterns and names, with empty components and a third literal
 	alpha := []string{"a", "b", "c", "*", "**", "", "x y", "TLS:false"}
 	nalpha := []string{"a", "b", "c", "", "x y", "TLS:false"}
-	nLong := verifkit.Scale(30000, 300000)
+	nLong := verifkit.Scale(30000, 1500000)
 	for i := 0; i < nLong; i++ {
 		k := 1 + rng.Intn(4)
 		set := make([]string, k)
@@ -190,7 +190,7 @@ func TestVerifC08Filter(t *testing.T) {
 	defer rep.Write()
 	rng := verifkit.Stream("c08filter")
 	lit := []string{"S", "T", "HTTPVersion:1", "HTTPVersion:2", "TLS:false", "x", "y"}
-	n := verifkit.Scale(20000, 300000)
+	n := verifkit.Scale(20000, 1500000)
 	for i := 0; i < n; i++ {
 		// universe
 		un := 1 + rng.Intn(12)
@@ -385,7 +385,7 @@ func TestVerifC08Ambiguity(t *testing.T) {
 		}
 		return out
 	}
-	n := verifkit.Scale(300, 3000)
+	n := verifkit.Scale(300, 15000)
 	for i := 0; i < n; i++ {
 		kf, kl := mk(), mk()
 		// both lists must be free of unmatched patterns or the earlier check fires first
